@@ -25,7 +25,7 @@ func init() {
 func wsOutput(c *vk.Ctx) {
 	runSharded(c, "ws-output")
 	maxLen := vk.Pick(c, 3, 4)
-	c.P.Bound = fmt.Sprintf("all handler-output sequences of length 1..%d over %d server messages (7 types), each emitted twice in a session (two triggers)", maxLen, len(outAlphabet()))
+	c.P.Bound = fmt.Sprintf("all handler-output sequences of length 1..%d over %d server messages (7 types), each emitted twice in a session (two triggers); plus %d single-message sessions of the string sweep (every free-text field of the 7 types x 19 strings of special characters)", maxLen, len(outAlphabet()), len(outSweep()))
 	c.P.Rule = "one session per output sequence (distinct by construction); the handler emits the sequence on its send channel when it receives a trigger REQ; at quiescence (synctest.Wait) " +
 		"the client must hold exactly len(seq) new TEXT frames, the i-th equal as JSON (encoding/json, numbers kept literal) to the hand-written expectation of the i-th emitted message " +
 		"and decoding with the repo's UnmarshalJSON of that type to a value reflect.DeepEqual to the emitted one"
@@ -115,6 +115,80 @@ func outAlphabet() []outMsg {
 				return &m, err
 			}},
 	}
+}
+
+// outSweep: every free-text field of every server message type x strings whose characters the JSON
+// encoder has to treat specially (each control character class, DEL, C1, the line separators, a
+// non-printable astral character, quotes and backslashes, a long string). One message per session.
+func outSweep() []outMsg {
+	strs := []struct{ name, s string }{
+		{"U+0001", "a\x01b"}, {"U+0008", "a\bb"}, {"U+000B", "a\vb"}, {"U+000C", "a\fb"}, {"U+001B", "a\x1bb"}, {"U+001F", "a\x1fb"},
+		{"U+007F", "a\x7fb"}, {"U+0085", "a\u0085b"}, {"U+00A0", "a\u00a0b"}, {"U+200B", "a\u200bb"}, {"U+2028/9", "a\u2028\u2029b"},
+		{"U+FEFF", "\ufeffb"}, {"U+FFFD", "a\ufffdb"}, {"U+E0001", "a\U000e0001b"}, {"astral", "a\U0001F600b"},
+		{"quote and backslash", "a\"b\\c\\\"d"}, {"html", "</script><!--&amp;"}, {"tab newline cr", "a\tb\nc\rd"}, {"300 chars", strings.Repeat("\u00e9x", 150)},
+	}
+	dec := func(mk func() interface {
+		mocrelay.ServerMsg
+		UnmarshalJSON([]byte) error
+	}) func(b []byte) (mocrelay.ServerMsg, error) {
+		return func(b []byte) (mocrelay.ServerMsg, error) {
+			m := mk()
+			err := m.UnmarshalJSON(b)
+			return m, err
+		}
+	}
+	ev := signerA.sign(1700000300, 1, nil, "sweep")
+	evObj := map[string]any{"id": ev.ID, "pubkey": ev.Pubkey, "created_at": json.Number("1700000300"), "kind": json.Number("1"), "tags": []any{}, "content": "sweep", "sig": ev.Sig}
+	id := strings.Repeat("e", 64)
+	var out []outMsg
+	for _, st := range strs {
+		s := st.s
+		out = append(out,
+			outMsg{"EOSE with subscription id " + st.name, mocrelay.NewServerEOSEMsg(s), []any{"EOSE", s}, dec(func() interface {
+				mocrelay.ServerMsg
+				UnmarshalJSON([]byte) error
+			} {
+				return &mocrelay.ServerEOSEMsg{}
+			})},
+			outMsg{"EVENT with subscription id " + st.name, mocrelay.NewServerEventMsg(s, ev), []any{"EVENT", s, evObj}, dec(func() interface {
+				mocrelay.ServerMsg
+				UnmarshalJSON([]byte) error
+			} {
+				return &mocrelay.ServerEventMsg{}
+			})},
+			outMsg{"CLOSED with subscription id and text " + st.name, mocrelay.NewServerClosedMsg(s, mocrelay.MachineReadablePrefixError, s), []any{"CLOSED", s, "error: " + s}, dec(func() interface {
+				mocrelay.ServerMsg
+				UnmarshalJSON([]byte) error
+			} {
+				return &mocrelay.ServerClosedMsg{}
+			})},
+			outMsg{"COUNT with subscription id " + st.name, mocrelay.NewServerCountMsg(s, 1, nil), []any{"COUNT", s, map[string]any{"count": json.Number("1")}}, dec(func() interface {
+				mocrelay.ServerMsg
+				UnmarshalJSON([]byte) error
+			} {
+				return &mocrelay.ServerCountMsg{}
+			})},
+			outMsg{"NOTICE with text " + st.name, mocrelay.NewServerNoticeMsg(s), []any{"NOTICE", s}, dec(func() interface {
+				mocrelay.ServerMsg
+				UnmarshalJSON([]byte) error
+			} {
+				return &mocrelay.ServerNoticeMsg{}
+			})},
+			outMsg{"OK with text " + st.name, mocrelay.NewServerOKMsg(id, false, mocrelay.MachineReadablePrefixInvalid, s), []any{"OK", id, false, "invalid: " + s}, dec(func() interface {
+				mocrelay.ServerMsg
+				UnmarshalJSON([]byte) error
+			} {
+				return &mocrelay.ServerOKMsg{}
+			})},
+			outMsg{"AUTH with challenge " + st.name, &mocrelay.ServerAuthMsg{Challenge: s}, []any{"AUTH", s}, dec(func() interface {
+				mocrelay.ServerMsg
+				UnmarshalJSON([]byte) error
+			} {
+				return &mocrelay.ServerAuthMsg{}
+			})},
+		)
+	}
+	return out
 }
 
 func genericJSON(b []byte) (any, error) {
@@ -327,7 +401,7 @@ func runOutputSession(h *wsx.Harness, sigma []outMsg, job outJob) (res outResult
 	return
 }
 
-func outputJobs(tier string, nsigma int) []outJob {
+func outputJobs(tier string, nsigma, nsweep int) []outJob {
 	maxLen := 3
 	if tier == "thorough" {
 		maxLen = 4
@@ -346,6 +420,10 @@ func outputJobs(tier string, nsigma int) []outJob {
 	for l := 1; l <= maxLen; l++ {
 		rec(nil, l)
 	}
+	// the string sweep: one message per session
+	for i := 0; i < nsweep; i++ {
+		jobs = append(jobs, outJob{Seq: []int{nsigma + i}})
+	}
 	// unclaimed probes: what a nil message does is observed and counted, never judged
 	jobs = append(jobs, outJob{Seq: []int{2, -1, 2}}, outJob{Seq: []int{2, -2, 2}})
 	return jobs
@@ -360,7 +438,12 @@ func wsOutputShard(tier string, shard, n int, r *rec, h *wsx.Harness) {
 			r.infra("output alphabet: nil message %s", om.Name)
 		}
 	}
-	jobs := outputJobs(tier, len(sigma))
+	sweep := outSweep()
+	jobs := outputJobs(tier, len(sigma), len(sweep))
+	sigma = append(sigma, sweep...)
+	if shard == 0 {
+		r.count("string_sweep_messages", int64(len(sweep)))
+	}
 	for idx, job := range jobs {
 		if idx%n != shard {
 			continue
